@@ -262,6 +262,7 @@ impl<'a, 'tcx> FnCx<'a, 'tcx> {
                             // promoted constant (`&CONST`, `&literal`): name the constants it mentions
                             parts.push(format!("\"promoted\":{}", p.index()));
                             let mut names: Vec<String> = Vec::new();
+                            let mut aggs: Vec<String> = Vec::new();
                             if uv.def.is_local() {
                                 let prom = tcx.promoted_mir(uv.def);
                                 if let Some(pb) = prom.get(p) {
@@ -272,7 +273,15 @@ impl<'a, 'tcx> FnCx<'a, 'tcx> {
                                                 match &b.1 {
                                                     Rvalue::Use(o, ..) => ops.push(o),
                                                     Rvalue::Cast(_, o, _) => ops.push(o),
-                                                    Rvalue::Aggregate(_, os) => {
+                                                    Rvalue::Aggregate(k, os) => {
+                                                        if let AggregateKind::Adt(adid, vi, _, _, _) = &**k {
+                                                            let def = tcx.adt_def(*adid);
+                                                            aggs.push(format!(
+                                                                "{}::{}",
+                                                                self.cx.path(*adid),
+                                                                def.variant(*vi).name
+                                                            ));
+                                                        }
                                                         for o in os.iter() {
                                                             ops.push(o)
                                                         }
@@ -295,6 +304,10 @@ impl<'a, 'tcx> FnCx<'a, 'tcx> {
                             }
                             if names.len() == 1 {
                                 parts.push(format!("\"cn\":{}", js(&names[0])));
+                            }
+                            if !aggs.is_empty() {
+                                let a: Vec<String> = aggs.iter().map(|x| js(x)).collect();
+                                parts.push(format!("\"pagg\":{}", jarr(&a)));
                             }
                         }
                     }
